@@ -440,7 +440,7 @@ fn jobs(thorough: bool) -> Vec<Job> {
         Cfg { mode: Mode::Immediate, rotate: true },
     ];
     for cfg in cfgs {
-        let main_cfg = cfg.mode == Mode::Immediate;
+        let main_cfg = cfg.mode == Mode::Immediate && (!thorough || !cfg.rotate);
         // (a) single-epoch breadth: all histories up to L over the first-epoch alphabet
         let mut plans: Vec<(u8, usize, Vec<(u8, usize)>)> = if thorough {
             vec![(2, if main_cfg { 3 } else { 2 }, vec![])]
